@@ -46,7 +46,7 @@ TInit == \E s \in Starts :
   /\ cur = [i \in Reps |-> Nil] /\ flags = [i \in Reps |-> NoFlags] /\ win = [i \in Reps |-> NoWin]
   /\ wb = [i \in Reps |-> Nil]
   /\ cfg = [lvl |-> Trace[s].lvl, ac |-> Trace[s].ac, lim |-> Trace[s].lim, gv |-> Trace[s].gv, n |-> Trace[s].nrep]
-  /\ btok = [r \in Rev |-> Unk] /\ upar = [r \in Rev |-> Unk] /\ udel = [r \in Rev |-> "?"]
+  /\ btok = NoFn /\ upar = NoFn /\ udel = NoFn
   /\ cons = TRUE /\ pruned = FALSE /\ acc = [i \in Reps |-> {}] /\ fed = [i \in Reps |-> <<>>]
   /\ pre = NoPre /\ hist = <<>>
 
